@@ -124,7 +124,7 @@ def run_pure(res, tier, seed, replay):
     ob = obligations_or_violation(res, ["C13"])
     wd = workdir("C13")
     rng = random.Random(seed)
-    n = 1500 if tier == "quick" else 40000
+    n = tier_size(tier, 1500, 40000)
     corpus = load_corpus("C13")
     scs = list(corpus)
     if replay:
